@@ -136,7 +136,7 @@ namespace
             runtime.__logmsg(err::ReturningConfigNull(runtime.context_active().current_frame().diag_info_from_position()));
             return config();
         }
-        return { *nav.parent_logical() };
+        return { *nav.parent_inherited() };
     }
     value isnumber_config(runtime& runtime, value::cref right)
     {
